@@ -64,7 +64,7 @@ Definition ex_cfg : config :=
      cf_pkce_plain := false; cf_introspect_rt := true; cf_life_dev := 600000%Z; cf_par_life := 300000%Z;
      cf_par_enforced := false |}.
 Definition ex_client : client :=
-  {| cl_public := false; cl_grants := ["authorization_code"; "refresh_token"]; cl_scopes := ["offline"; "photos"]; cl_aud := [] |}.
+  {| cl_public := false; cl_grants := ["authorization_code"; "refresh_token"]; cl_scopes := ["offline"; "photos"]; cl_aud := []; cl_life := None |}.
 Definition ex_authz : authz :=
   {| az_rtype := RCode; az_client := 0; az_redirect := ""; az_scopes := ["offline"; "photos"]; az_granted := ["offline"; "photos"];
      az_aud := []; az_gaud := []; az_subject := "alice"; az_challenge := ""; az_method := "" |}.
